@@ -342,7 +342,10 @@ def classify(hs):
     last, before = hs[-1], hs[:-1]
     if last == 'gc-reuse':
         return 'history-dependent:id-reuse-after-gc:TypeHint-over-unhashable-hint'
-    if last.startswith('fwd(') and any(b.startswith('fwd(') for b in before) and not any('nonhint' in x for x in hs):
+    # (the two families of forward-reference operations use two different modules: a reference is only re-resolved wrongly
+    # when the *same* module-level name was resolved earlier and has been rebound since)
+    fam = lambda n: 'nonhint' in n
+    if last.startswith('fwd(') and any(b.startswith('fwd(') and fam(b) == fam(last) for b in before):
         return 'history-dependent:forward-reference-to-a-redefined-same-named-class'
     side = _dup_side(last)
     if side and last.startswith(('bear(', 'decor(')) and any(_dup_side(b) not in (None, side) and b.startswith(('bear(', 'decor(')) for b in before):
